@@ -8,53 +8,60 @@ namespace Dask.Chunks
 /-- a chunking the planner may use as a stage: non-empty, positive, of the axis' length -/
 def StageOK (n : Nat) (cs : List Nat) : Prop := cs ≠ [] ∧ (∀ c ∈ cs, 0 < c) ∧ sum cs = n
 
-/-! ### `merge_to_number`, heap path -/
+/-! ### `merge_to_number`, heap path (deleted entries are `none`) -/
 
-/-- number of live (non-zero) chunks -/
-def nz (l : List Nat) : Nat := (l.filter (· ≠ 0)).length
+/-- number of live chunks (not merged away) -/
+def live : List (Option Nat) → Nat
+  | [] => 0
+  | c :: cs => (if c.isSome then 1 else 0) + live cs
 
-theorem nz_nil : nz [] = 0 := rfl
-theorem nz_cons (c : Nat) (l : List Nat) : nz (c :: l) = (if c ≠ 0 then 1 else 0) + nz l := by
-  unfold nz
-  by_cases h : c = 0
-  · simp [h]
-  · simp [h]; omega
+/-- total of the live chunks -/
+def osum : List (Option Nat) → Nat
+  | [] => 0
+  | c :: cs => c.getD 0 + osum cs
 
-theorem sum_set : ∀ (l : List Nat) (i c v : Nat), l[i]? = some c → sum (l.set i v) + c = sum l + v
+theorem osum_set : ∀ (l : List (Option Nat)) (i : Nat) (c v : Option Nat), l[i]? = some c →
+    osum (l.set i v) + c.getD 0 = osum l + v.getD 0
   | [], i, c, v, h => by simp at h
   | x :: xs, 0, c, v, h => by
     simp at h; subst h
-    simp only [List.set_cons_zero, sum_cons]; omega
+    simp only [List.set_cons_zero, osum]; omega
   | x :: xs, i + 1, c, v, h => by
     simp at h
-    have := sum_set xs i c v h
-    simp only [List.set_cons_succ, sum_cons]; omega
+    have := osum_set xs i c v h
+    simp only [List.set_cons_succ, osum]; omega
 
-theorem nz_set : ∀ (l : List Nat) (i c v : Nat), l[i]? = some c →
-    nz (l.set i v) + (if c ≠ 0 then 1 else 0) = nz l + (if v ≠ 0 then 1 else 0)
+theorem live_set : ∀ (l : List (Option Nat)) (i : Nat) (c v : Option Nat), l[i]? = some c →
+    live (l.set i v) + (if c.isSome then 1 else 0) = live l + (if v.isSome then 1 else 0)
   | [], i, c, v, h => by simp at h
   | x :: xs, 0, c, v, h => by
     simp at h; subst h
-    simp only [List.set_cons_zero, nz_cons]; omega
+    simp only [List.set_cons_zero, live]; omega
   | x :: xs, i + 1, c, v, h => by
     simp at h
-    have := nz_set xs i c v h
-    simp only [List.set_cons_succ, nz_cons]; omega
+    have := live_set xs i c v h
+    simp only [List.set_cons_succ, live]; omega
 
-theorem sum_filter_ne_zero : ∀ (l : List Nat), sum (l.filter (· ≠ 0)) = sum l
+theorem sum_filterMap_id : ∀ (l : List (Option Nat)), sum (l.filterMap id) = osum l
   | [] => rfl
-  | x :: xs => by
-    have ih := sum_filter_ne_zero xs
-    by_cases h : x = 0
-    · rw [List.filter_cons_of_neg (by simp [h]), ih, h, sum_cons]; omega
-    · rw [List.filter_cons_of_pos (by simp [h]), sum_cons, ih, sum_cons]
+  | none :: xs => by simp [osum, sum_filterMap_id xs]
+  | some x :: xs => by simp [osum, sum_cons, sum_filterMap_id xs]
 
-theorem nz_of_pos : ∀ (l : List Nat), (∀ c ∈ l, 0 < c) → nz l = l.length
-  | [], _ => rfl
-  | x :: xs, h => by
-    have hx : x ≠ 0 := by have := h x (by simp); omega
-    rw [nz_cons, nz_of_pos xs (fun c hc => h c (List.mem_cons_of_mem _ hc))]
-    simp [hx]; omega
+theorem length_filterMap_id : ∀ (l : List (Option Nat)), (l.filterMap id).length = live l
+  | [] => rfl
+  | none :: xs => by simp [live, length_filterMap_id xs]
+  | some x :: xs => by simp [live, length_filterMap_id xs]; omega
+
+theorem osum_map_some : ∀ (l : List Nat), osum (l.map some) = sum l
+  | [] => rfl
+  | x :: xs => by simp [osum, sum_cons, osum_map_some xs]
+
+theorem live_map_some : ∀ (l : List Nat), live (l.map some) = l.length
+  | [] => rfl
+  | x :: xs => by simp [live, live_map_some xs]; omega
+
+/-- every live chunk is positive -/
+def LivePos (l : List (Option Nat)) : Prop := ∀ c, some c ∈ l → 0 < c
 
 theorem popMin_mem : ∀ {h : List HEnt} {e : HEnt} {rest : List HEnt}, popMin h = some (e, rest) →
     e ∈ h ∧ ∀ x ∈ rest, x ∈ h
@@ -99,16 +106,17 @@ theorem heapInit_inv : ∀ (i : Nat) (cs : List Nat), HeapInv (heapInit i cs)
     · subst he; simp
     · exact heapInit_inv (i + 1) (b :: rest) e he
 
-theorem nextNonzero_ge {chunks : List Nat} {j j' : Nat} (h : nextNonzero chunks j = some j') : j ≤ j' := by
-  unfold nextNonzero at h
-  cases hf : firstNonzero (chunks.drop j) with
+theorem nextLive_ge {chunks : List (Option Nat)} {j j' : Nat} (h : nextLive chunks j = some j') : j ≤ j' := by
+  unfold nextLive at h
+  cases hf : firstLive (chunks.drop j) with
   | none => simp [hf] at h
   | some k => simp [hf] at h; omega
 
 /-- what one iteration of the merge loop preserves -/
-theorem mergeStep_spec {heap : List HEnt} {chunks : List Nat} {b : Bool} {heap' : List HEnt} {chunks' : List Nat}
-    (hs : mergeStep heap chunks = some (b, heap', chunks')) (hinv : HeapInv heap) :
-    HeapInv heap' ∧ sum chunks' = sum chunks ∧ nz chunks' + (if b then 1 else 0) = nz chunks := by
+theorem mergeStep_spec {heap : List HEnt} {chunks : List (Option Nat)} {b : Bool} {heap' : List HEnt}
+    {chunks' : List (Option Nat)} (hs : mergeStep heap chunks = some (b, heap', chunks')) (hinv : HeapInv heap) :
+    HeapInv heap' ∧ osum chunks' = osum chunks ∧ live chunks' + (if b then 1 else 0) = live chunks ∧
+      (LivePos chunks → LivePos chunks') := by
   unfold mergeStep at hs
   cases hp : popMin heap with
   | none => simp [hp] at hs
@@ -118,53 +126,63 @@ theorem mergeStep_spec {heap : List HEnt} {chunks : List Nat} {b : Bool} {heap' 
     have hij := hinv e hmem
     have hrinv : HeapInv rest := fun x hx => hinv x (hrest x hx)
     simp only [hp] at hs
-    cases hci : chunks[e.i]? with
-    | none => simp [hci] at hs
-    | some ci =>
-      cases hcj : chunks[e.j]? with
-      | none => simp [hci, hcj] at hs
-      | some cj =>
-        simp only [hci, hcj] at hs
-        split at hs
-        · -- stale right end: re-push
-          cases hn : nextNonzero chunks (e.j + 1) with
-          | none => simp [hn] at hs
-          | some j' =>
-            simp [hn] at hs
+    cases hcj : chunks[e.j]? with
+    | none => simp [hcj] at hs
+    | some oj =>
+      cases oj with
+      | none =>
+        simp only [hcj] at hs
+        cases hn : nextLive chunks (e.j + 1) with
+        | none => simp [hn] at hs
+        | some j' =>
+          simp only [hn] at hs
+          have hge := nextLive_ge hn
+          split at hs
+          · simp at hs
             obtain ⟨rfl, rfl, rfl⟩ := hs
-            have := nextNonzero_ge hn
-            refine ⟨?_, rfl, by simp⟩
+            refine ⟨?_, rfl, by simp, fun h => h⟩
             intro x hx
             rcases List.mem_cons.1 hx with hx | hx
             · subst hx; simp; omega
             · exact hrinv x hx
-        · split at hs
+          · simp at hs
+      | some cj =>
+        simp only [hcj] at hs
+        split at hs
+        · rename_i ci hci
+          split at hs
           · simp at hs
             obtain ⟨rfl, rfl, rfl⟩ := hs
-            refine ⟨?_, rfl, by simp⟩
+            refine ⟨?_, rfl, by simp, fun h => h⟩
             intro x hx
             rcases List.mem_cons.1 hx with hx | hx
             · subst hx; simpa using hij
             · exact hrinv x hx
-          · split at hs
-            · simp at hs
-            · rename_i hcj0 hw hci0
-              simp at hs
-              obtain ⟨rfl, rfl, rfl⟩ := hs
-              have hw : ci + cj = e.w := by omega
-              have h1 := sum_set chunks e.i ci 0 hci
-              have hj' : (chunks.set e.i 0)[e.j]? = some cj := by
-                rw [List.getElem?_set_ne (by omega)]; exact hcj
-              have h2 := sum_set (chunks.set e.i 0) e.j cj e.w hj'
-              have n1 := nz_set chunks e.i ci 0 hci
-              have n2 := nz_set (chunks.set e.i 0) e.j cj e.w hj'
-              have hw0 : e.w ≠ 0 := by omega
-              simp only [hci0, hcj0, hw0, ne_eq, not_false_eq_true, if_true, not_true_eq_false, if_false] at n1 n2
-              refine ⟨hrinv, by omega, ?_⟩
-              simp only [if_true]; omega
+          · rename_i hw
+            simp at hs
+            obtain ⟨rfl, rfl, rfl⟩ := hs
+            have hw : ci + cj = e.w := by omega
+            have h1 := osum_set chunks e.i (some ci) none hci
+            have hj' : (chunks.set e.i none)[e.j]? = some (some cj) := by
+              rw [List.getElem?_set_ne (by omega)]; exact hcj
+            have h2 := osum_set (chunks.set e.i none) e.j (some cj) (some e.w) hj'
+            have n1 := live_set chunks e.i (some ci) none hci
+            have n2 := live_set (chunks.set e.i none) e.j (some cj) (some e.w) hj'
+            simp at h1 h2 n1 n2
+            refine ⟨hrinv, by omega, by simp; omega, ?_⟩
+            intro hpos c hc
+            rcases List.mem_or_eq_of_mem_set hc with hc | hc
+            · rcases List.mem_or_eq_of_mem_set hc with hc | hc
+              · exact hpos c hc
+              · cases hc
+            · injection hc with hc; subst hc
+              have := hpos ci (List.mem_of_getElem? hci)
+              omega
+        · simp at hs
 
-theorem mergeLoop_spec : ∀ (fuel nm : Nat) (heap : List HEnt) (chunks r : List Nat),
-    mergeLoop fuel nm heap chunks = .ok r → HeapInv heap → sum r = sum chunks ∧ nz r + nm = nz chunks
+theorem mergeLoop_spec : ∀ (fuel nm : Nat) (heap : List HEnt) (chunks r : List (Option Nat)),
+    mergeLoop fuel nm heap chunks = .ok r → HeapInv heap →
+    osum r = osum chunks ∧ live r + nm = live chunks ∧ (LivePos chunks → LivePos r)
   | _, 0, _, chunks, r, h, _ => by
     have : r = chunks := by
       cases ‹Nat› <;> simp [mergeLoop] at h <;> exact h.symm
@@ -176,40 +194,43 @@ theorem mergeLoop_spec : ∀ (fuel nm : Nat) (heap : List HEnt) (chunks r : List
     | none => simp [hs] at h
     | some t =>
       obtain ⟨b, heap', chunks'⟩ := t
-      obtain ⟨i1, i2, i3⟩ := mergeStep_spec hs hinv
+      obtain ⟨i1, i2, i3, i4⟩ := mergeStep_spec hs hinv
       cases b with
       | true =>
         simp only [hs] at h
-        have := mergeLoop_spec fuel nm heap' chunks' r h i1
+        obtain ⟨a1, a2, a3⟩ := mergeLoop_spec fuel nm heap' chunks' r h i1
         simp at i3
-        omega
+        exact ⟨by omega, by omega, fun hp => a3 (i4 hp)⟩
       | false =>
         simp only [hs] at h
-        have := mergeLoop_spec fuel (nm + 1) heap' chunks' r h i1
+        obtain ⟨a1, a2, a3⟩ := mergeLoop_spec fuel (nm + 1) heap' chunks' r h i1
         simp at i3
-        omega
+        exact ⟨by omega, by omega, fun hp => a3 (i4 hp)⟩
 
-/-- heap path of `merge_to_number`: same total, positive chunks, exactly `max_number` of them -/
-theorem mergeHeap_spec {cs r : List Nat} {M : Nat} (h : mergeHeap cs M = .ok r) (hpos : ∀ c ∈ cs, 0 < c)
-    (hM : M ≤ cs.length) : sum r = sum cs ∧ (∀ x ∈ r, 0 < x) ∧ r.length = M := by
+/-- heap path of `merge_to_number`: same total, exactly `max_number` chunks, positive chunks stay positive
+    (zero-length chunks are allowed in the input) -/
+theorem mergeHeap_spec {cs r : List Nat} {M : Nat} (h : mergeHeap cs M = .ok r) (hM : M ≤ cs.length) :
+    sum r = sum cs ∧ r.length = M ∧ ((∀ c ∈ cs, 0 < c) → ∀ x ∈ r, 0 < x) := by
   unfold mergeHeap at h
-  cases hl : mergeLoop (mergeFuel cs.length) (cs.length - M) (heapInit 0 cs) cs with
+  cases hl : mergeLoop (mergeFuel cs.length) (cs.length - M) (heapInit 0 cs) (cs.map some) with
   | error e => simp [hl] at h
   | ok chunks =>
     simp [hl] at h
     subst h
-    obtain ⟨h1, h2⟩ := mergeLoop_spec _ _ _ _ _ hl (heapInit_inv 0 cs)
+    obtain ⟨h1, h2, h3⟩ := mergeLoop_spec _ _ _ _ _ hl (heapInit_inv 0 cs)
     refine ⟨?_, ?_, ?_⟩
-    · have := sum_filter_ne_zero chunks
-      simp only [ne_eq, decide_not] at this ⊢
+    · rw [sum_filterMap_id, h1, osum_map_some]
+    · rw [length_filterMap_id]
+      rw [live_map_some] at h2
       omega
-    · intro x hx
-      have := (List.mem_filter.1 hx).2
-      simp at this; omega
-    · have := nz_of_pos cs hpos
-      unfold nz at h2 this
-      simp only [ne_eq, decide_not] at h2 this ⊢
-      omega
+    · intro hpos x hx
+      have hx' : some x ∈ chunks := by
+        obtain ⟨a, ha, hax⟩ := List.mem_filterMap.1 hx
+        simp at hax; subst hax; exact ha
+      refine h3 ?_ x hx'
+      intro c hc
+      obtain ⟨y, hy, hyc⟩ := List.mem_map.1 hc
+      injection hyc with hyc; subst hyc; exact hpos y hy
 
 theorem sum_all_eq : ∀ (w : Nat) (rest : List Nat), rest.all (· == w) = true → sum rest = rest.length * w
   | _, [], _ => by simp [sum]
@@ -217,16 +238,15 @@ theorem sum_all_eq : ∀ (w : Nat) (rest : List Nat), rest.all (· == w) = true 
     simp at h
     rw [sum_cons, sum_all_eq w xs (by simpa using h.2), h.1, List.length_cons, Nat.succ_mul]; omega
 
-/-- `merge_to_number` (all paths) on positive chunks: same total, positive chunks; exactly `max_number`
-    chunks when there were more -/
-theorem mergeToNumberFull_spec {cs r : List Nat} {M : Nat} (h : mergeToNumberFull cs M = .ok r)
-    (hpos : ∀ c ∈ cs, 0 < c) :
-    sum r = sum cs ∧ (∀ x ∈ r, 0 < x) ∧ (M < cs.length → r.length = M) ∧ (cs.length ≤ M → r = cs) := by
+/-- `merge_to_number` (all paths): same total; exactly `max_number` chunks when there were more, the input itself
+    otherwise; positive chunks stay positive (zero-length chunks are accepted) -/
+theorem mergeToNumberFull_spec {cs r : List Nat} {M : Nat} (h : mergeToNumberFull cs M = .ok r) :
+    sum r = sum cs ∧ ((∀ c ∈ cs, 0 < c) → ∀ x ∈ r, 0 < x) ∧ (M < cs.length → r.length = M) ∧ (cs.length ≤ M → r = cs) := by
   unfold mergeToNumberFull at h
   split at h
   · rename_i hle
     simp at h; subst h
-    exact ⟨rfl, hpos, fun hc => by omega, fun _ => rfl⟩
+    exact ⟨rfl, fun hp => hp, fun hc => by omega, fun _ => rfl⟩
   · rename_i hlt
     cases cs with
     | nil => simp at hlt
@@ -234,15 +254,16 @@ theorem mergeToNumberFull_spec {cs r : List Nat} {M : Nat} (h : mergeToNumberFul
       simp only at h
       split at h
       · rename_i hall
+        simp only [Bool.and_eq_true] at hall
         simp only [List.length_cons] at h hlt ⊢
         cases hm : mergeHomogeneous w (rest.length + 1) M with
         | none => simp [hm] at h
         | some r' =>
           simp [hm] at h; subst h
           obtain ⟨a1, a2, a3⟩ := mergeHomogeneous_spec hm
-          refine ⟨?_, a3 (by omega), fun _ => a1, fun hc => by omega⟩
-          rw [a2, sum_cons, sum_all_eq w rest hall, Nat.succ_mul]; omega
-      · obtain ⟨a1, a2, a3⟩ := mergeHeap_spec h hpos (by omega)
-        exact ⟨a1, a2, fun _ => a3, fun hc => by omega⟩
+          refine ⟨?_, fun _ => a3 (by omega), fun _ => a1, fun hc => by omega⟩
+          rw [a2, sum_cons, sum_all_eq w rest hall.1, Nat.succ_mul]; omega
+      · obtain ⟨a1, a2, a3⟩ := mergeHeap_spec h (by omega)
+        exact ⟨a1, a3, fun _ => a2, fun hc => by omega⟩
 
 end Dask.Chunks
